@@ -19,7 +19,9 @@ Physical framing
     random_layout(rng, small=True)
 
 Generator
-    random_file(rng, allow_be=True, two_files_p=0.2) -> (bytes, FileModel)
+    random_file(rng, allow_be=True, two_files_p=0.2, layout=None, concurrent_p=0.0, profile=None) -> (bytes, FileModel)
+                  profile: optional dict of widening knobs (see PROFILE_KEYS); None = the original input space, drawn with the
+                  original random stream (other checks use this generator through providers and keep their inputs)
     FileModel:    .data .layout .prs
                   .records   [{'kind','type','name','start','end','len','logpass'}] every logical record in file order
                   .index     [(start, lr_type, table name | None, kind)] every logical record that is not a data record
@@ -338,7 +340,9 @@ def frame_records(lrs, layout):
     return bytes(out), extents, info
 
 
-def random_layout(rng, small=True, allow_be=True):
+def random_layout(rng, small=True, allow_be=True, tiny_p=0.0):
+    """tiny_p: probability of a payload capacity of 1..3 bytes (the 2 byte logical record header is then split over
+    physical records); 0 keeps the original stream of random draws."""
     rec = rng.random() < 0.3
     fil = rng.choice([None, None, 0, 7, 65535])
     chk = rng.random() < 0.3
@@ -353,6 +357,8 @@ def random_layout(rng, small=True, allow_be=True):
     else:
         cap = 65535 - 4 - tl
     tif = rng.choice([None, None, 'le', 'be' if allow_be else 'le'])
+    if tiny_p and rng.random() < tiny_p:
+        cap = rng.randrange(1, 4)
     return Layout(4 + tl + cap, rec, fil, chk, tif)
 
 
@@ -368,17 +374,36 @@ def frame_safe(lrs, layout):
 
 
 # ------------------------------------------------------------------------------------------------ models
+DIPMETER_BYTES = {130: 80, 234: 90}    # dipmeter codes: 16 samples of 5 fast channels (+ 10 slow channels), one unsigned byte each
+
+
 class Channel:
+    """A channel of a frame.  Dipmeter channels (codes 130 / 234, only generated with profile['dipmeter_p']) are 80 / 90
+    unsigned bytes per frame; their datum specification block declares one sample."""
+
     def __init__(self, mnem, units, rc, samples=1, bursts=1):
         self.mnem, self.units, self.rc, self.samples, self.bursts = mnem, units, rc, samples, bursts
 
     @property
+    def dipmeter(self):
+        return self.rc in DIPMETER_BYTES
+
+    @property
+    def word_rc(self):
+        """Representation code of one value of the channel."""
+        return 66 if self.dipmeter else self.rc
+
+    @property
+    def dsb_samples(self):
+        return 1 if self.dipmeter else self.samples
+
+    @property
     def nvalues(self):
-        return self.samples * self.bursts
+        return DIPMETER_BYTES[self.rc] if self.dipmeter else self.samples * self.bursts
 
     @property
     def size(self):
-        return self.nvalues * RC_SIZE[self.rc]
+        return self.nvalues * RC_SIZE[self.word_rc]
 
     def describe(self):
         return {'mnem': self.mnem.decode('latin-1'), 'rc': self.rc, 'samples': self.samples, 'bursts': self.bursts}
@@ -461,6 +486,36 @@ def frames_pattern(rng, max_total=70):
     return pat
 
 
+PROFILE_KEYS = {
+    'neg70_p': 'probability that a log pass holds negative code 70 words (default 0.12, from when they raised - F18/F20, repaired)',
+    'long_p': 'probability of a long log pass: 1..2 single-valued channels, hundreds of frames per record or a hundred records',
+    'misc_types': 'logical record types for the records without internal format around / between the other records',
+    'misc_between_p': 'probability, per gap between data records, of such a record there',
+    'eof_marker_p': 'probability of a logical EOF record (type 137, header only: a 2 byte logical record) after a file trailer',
+    'sequential_p': 'probability of a second data format specification + data records of the same data type in one logical file',
+    'tiny_cap_p': 'probability of a physical record payload capacity of 1..3 bytes',
+    'dipmeter_p': 'probability, per channel after the first, of a dipmeter channel (code 130 or 234)',
+}
+
+
+def long_frames_pattern(rng, max_total=2000):
+    k = rng.random()
+    if k < 0.4:          # many frames per record (beyond one byte), equal records
+        n = rng.choice([255, 256, 257, rng.randrange(100, 700)])
+        pat = [n] * rng.randrange(2, 5)
+    elif k < 0.7:        # ... with a short or a longer last record
+        n = rng.randrange(100, 500)
+        pat = [n] * rng.randrange(1, 4) + [rng.choice([1, n // 2, n + 7])]
+    else:                # many records of few frames
+        n = rng.randrange(1, 4)
+        pat = [n] * rng.randrange(40, 160)
+        if rng.random() < 0.5:
+            pat[rng.randrange(len(pat))] += 1
+    while sum(pat) > max_total and len(pat) > 1:
+        pat.pop()
+    return pat
+
+
 INT_UNIT_PAIRS = [(b'FEET', b'INCH'), (b'INCH', b'.1IN'), (b'FEET', b'.1IN'), (b'S   ', b'MS  '), (b'M   ', b'CM  '),
                   (b'M   ', b'MM  '), (b'CM  ', b'MM  ')]     # (spacing units, X units) with an integer factor
 
@@ -476,24 +531,33 @@ def _x_values_ok(rc, x0, sp, n, gaps=None):
         return False
 
 
-def random_logpass_spec(rng, max_channels=8):
+def random_logpass_spec(rng, max_channels=8, profile=None):
     """Choose a data format specification and the X axis of a log pass (no bytes yet)."""
     lp = LogPassModel()
+    long_pass = bool(profile) and rng.random() < profile.get('long_p', 0.0)
     lp.indirect = rng.random() < 0.6
     lp.updown = rng.choice([1, 1, 255, 255, 0])
     lp.data_type = 1 if rng.random() < 0.1 else 0
-    lp.neg70 = rng.random() < 0.12       # negative code 70 words only in a minority of log passes (finding F18)
+    # negative code 70 words only in a minority of log passes by default (they raised: finding F18/F20, repaired since)
+    lp.neg70 = rng.random() < (profile.get('neg70_p', 0.12) if profile else 0.12)
     nch = rng.choice([n for n in (1, 1, 2, 3, 3, 4, 5, 6, 8) if n <= max_channels])
+    if long_pass:
+        nch = min(nch, 2)
     used = set()
     chans = []
     for c in range(nch):
         rc = rng.choice(FRAME_RCS)
-        if rng.random() < 0.5:
+        if rng.random() < 0.5 or long_pass:
             sa, bu = 1, 1
         else:
             sa, bu = rng.randrange(1, 5), rng.randrange(1, 4)
         chans.append(Channel(rand_mnem(rng, used=used), rng.choice([b'    ', b'FEET', b'GAPI', b'OHMM', b'MV  ']), rc, sa, bu))
+        if profile and c > 0 and not long_pass and rng.random() < profile.get('dipmeter_p', 0.0):
+            chans[-1] = Channel(chans[-1].mnem, chans[-1].units, rng.choice([130, 234]), 1, 1)
     lp.frames_per_record = frames_pattern(rng) if rng.random() > 0.03 else []
+    lp.long_pass = long_pass
+    if long_pass:
+        lp.frames_per_record = long_frames_pattern(rng)
     lp.total = sum(lp.frames_per_record)
     lp.x_even = True
     sign = -1 if lp.updown == 1 else 1
@@ -595,7 +659,7 @@ def build_logpass_records(rng, lp):
     if opt(0.5):
         rng.shuffle(ebs)
     lp.entry_blocks = ebs
-    dsbs = [dsb(ch.mnem, ch.units, ch.size, ch.samples, ch.rc, api=rng.randrange(0, 99999999), file_no=rng.randrange(0, 100))
+    dsbs = [dsb(ch.mnem, ch.units, ch.size, ch.dsb_samples, ch.rc, api=rng.randrange(0, 99999999), file_no=rng.randrange(0, 100))
             for ch in lp.channels]
     dfsr = lr_dfsr(ebs, dsbs)
     # frames
@@ -616,9 +680,9 @@ def build_logpass_records(rng, lp):
                     if ci == 0 and j == 0 and not lp.indirect and lp.x_even:
                         w = xenc(lp.x0 + (f + k) * lp.spacing)
                     else:
-                        w = random_word(rng, ch.rc, neg70=lp.neg70 and (ci > 0 or lp.indirect))
+                        w = random_word(rng, ch.word_rc, neg70=lp.neg70 and (ci > 0 or lp.indirect))
                     fb += w
-                    row.append(rc_float(ch.rc, w))
+                    row.append(rc_float(ch.word_rc, w))
             frames.append(bytes(fb))
             lp.matrix.append(row)
         if lp.indirect:
@@ -639,8 +703,17 @@ def build_logpass_records(rng, lp):
     return dfsr, data
 
 
-def random_file(rng, allow_be=True, two_files_p=0.2, layout=None, concurrent_p=0.0):
-    """A LIS file with 1..2 logical files, each holding one log pass.  Returns (bytes, FileModel)."""
+def _misc_record(rng, profile):
+    """A logical record without interpreted internal format (operator input, comment, picture, table dump ...)."""
+    ty = rng.choice(profile['misc_types'])
+    k = rng.random()
+    payload = b'' if k < 0.15 else bytes(rng.randrange(256) for _ in range(rng.randrange(1, 40))) if k < 0.6 else b'comment ' * rng.randrange(1, 9)
+    return ('misc', ty, None, lr_misc(ty, payload), None, None, None)
+
+
+def random_file(rng, allow_be=True, two_files_p=0.2, layout=None, concurrent_p=0.0, profile=None):
+    """A LIS file with 1..2 logical files, each holding one log pass (two with concurrent_p / profile['sequential_p']).
+    Returns (bytes, FileModel)."""
     fm = FileModel()
     lrs = []       # (kind, lr_type, name, bytes, logpass index, first frame, nframes)
     fm.logpasses = []
@@ -659,8 +732,11 @@ def random_file(rng, allow_be=True, two_files_p=0.2, layout=None, concurrent_p=0
             b, name = random_simple_table(rng, ty)
             lrs.append(('table', ty, name, b, None, None, None))
         if rng.random() < 0.15:
-            lrs.append(('misc', 232, None, lr_misc(232, b'comment ' * rng.randrange(1, 9)), None, None, None))
-        lp = random_logpass_spec(rng)
+            if profile and profile.get('misc_types'):
+                lrs.append(_misc_record(rng, profile))
+            else:
+                lrs.append(('misc', 232, None, lr_misc(232, b'comment ' * rng.randrange(1, 9)), None, None, None))
+        lp = random_logpass_spec(rng, profile=profile)
         lpi = len(fm.logpasses)
         fm.logpasses.append(lp)
         dfsr, data = build_logpass_records(rng, lp)
@@ -670,7 +746,7 @@ def random_file(rng, allow_be=True, two_files_p=0.2, layout=None, concurrent_p=0
         lp2 = None
         if concurrent_p and rng.random() < concurrent_p:
             for _ in range(20):
-                cand = random_logpass_spec(rng)
+                cand = random_logpass_spec(rng, profile=profile)
                 if cand.frames_per_record:
                     break
             cand.data_type = 1 - lp.data_type
@@ -693,16 +769,37 @@ def random_file(rng, allow_be=True, two_files_p=0.2, layout=None, concurrent_p=0
             if inter and k + 1 < len(data) and rng.random() < 0.4:
                 tb, name = random_simple_table(rng, 34)
                 lrs.append(('table', 34, name, tb, None, None, None))
+            if profile and profile.get('misc_types') and k + 1 < len(data) and len(data) <= 12 and rng.random() < profile.get('misc_between_p', 0.0):
+                lrs.append(_misc_record(rng, profile))
         for n2, b2 in pending2:
             lrs.append(('data', lp2.data_type, None, b2, lp2i, f2, n2))
             f2 += n2
+        if profile and lp2 is None and rng.random() < profile.get('sequential_p', 0.0):
+            # a second data format specification of the same data type in the same logical file: the data records that follow
+            # it belong to it (a repeat section recorded with another channel set)
+            lp3 = random_logpass_spec(rng, profile=profile)
+            lp3.data_type = lp.data_type
+            lp3i = len(fm.logpasses)
+            fm.logpasses.append(lp3)
+            dfsr3, data3 = build_logpass_records(rng, lp3)
+            if rng.random() < 0.5:
+                tb, name = random_simple_table(rng, 34)
+                lrs.append(('table', 34, name, tb, None, None, None))
+            lrs.append(('dfsr', 64, None, dfsr3, lp3i, None, None))
+            f3 = 0
+            for n3, b3 in zip(lp3.frames_per_record, data3):
+                lrs.append(('data', lp3.data_type, None, b3, lp3i, f3, n3))
+                f3 += n3
+            lp.sequential = lp3.sequential = True
         lrs.append(('file-tail', 129, None, lr_file_head_tail(129, file_name=fname), None, None, None))
+        if profile and rng.random() < profile.get('eof_marker_p', 0.0):
+            lrs.append(('misc', 137, None, lr_misc(137, b''), None, None, None))
     if tape:
         lrs.append(('tape-tail', 131, None, lr_reel_tape(131), None, None, None))
     if reel:
         lrs.append(('reel-tail', 133, None, lr_reel_tape(133), None, None, None))
     if layout is None:
-        layout = random_layout(rng, allow_be=allow_be)
+        layout = random_layout(rng, allow_be=allow_be, tiny_p=profile.get('tiny_cap_p', 0.0) if profile else 0.0)
     data, extents, prs, layout = frame_safe([r[3] for r in lrs], layout)
     fm.layout = layout
     fm.data = data
